@@ -70,6 +70,11 @@ func c16sBody(t *testing.T, im *c16sImage, ops []string) sched.Body {
 				case op == "rotate":
 					ok, txt := w.rotate()
 					outs[i].ok, outs[i].txt = ok, txt
+				case op == "delissuer2":
+					// removing an issuer rebuilds the CRLs without taking the revocation lock:
+					// a rebuild in flight while the revocation reaches its own rebuild
+					resp, err := s.Req(s.Root, logical.DeleteOperation, "pki/issuer/i2", nil)
+					outs[i].ok, outs[i].txt = OK(resp, err), ErrText(resp, err)
 				}
 			})
 		}
@@ -114,6 +119,16 @@ func c16sBody(t *testing.T, im *c16sImage, ops []string) sched.Body {
 						fail("stored-revocation-time-differs", fmt.Sprintf("serial %s: callers were told %v, the status API now reports %s", w.certs[ci].serial, ts, now))
 					}
 				}
+			}
+			for i, op := range ops {
+				if op == "delissuer2" && outs[i].ok {
+					w.issuerGone["i2"] = true
+				}
+			}
+			// auto_rebuild is off in this image: "the CRL served once the revoke call has returned
+			// already lists the serial" - judged BEFORE any further rotation
+			if sig, msg := w.check(); sig != "" {
+				fail(sig+":before-any-further-rotation", msg)
 			}
 			// a rotate after quiescence makes "the CRL served now" well defined for auto-rebuild configurations
 			if ok, txt := w.rotate(); !ok {
@@ -219,9 +234,9 @@ func c16PartS(t *testing.T, res *vout.Result, item *int) {
 		bound = 3
 	}
 	res.Bound("preemption_bound", bound)
-	scen := [][]string{{"revoke0", "revoke0"}, {"revoke0", "revoke1"}, {"revoke0", "rotate"}}
+	scen := [][]string{{"revoke0", "revoke0"}, {"revoke0", "revoke1"}, {"revoke0", "rotate"}, {"revoke0", "delissuer2"}}
 	if vout.Thorough() {
-		scen = append(scen, []string{"revoke0", "revoke0", "rotate"}, []string{"revoke0", "revoke0", "revoke1"})
+		scen = append(scen, []string{"revoke0", "revoke0", "rotate"}, []string{"revoke0", "revoke0", "revoke1"}, []string{"revoke0", "revoke1", "delissuer2"})
 	}
 	// with and without the physical read cache (its per-key lock serialises a read of
 	// config/crl with the write in flight; disable_cache and cache misses do not)
